@@ -74,15 +74,36 @@ def scripts(d):
 NAMES = [n for n in scripts("a") if not n.startswith(("big-", "die-", "stuck-")) and not n.endswith("-noread")]
 
 
-def norm(transcript):
+# The file-system backends take a file's times from the kernel's clock, which is not part of the simulated world (the
+# memory backend's clock is: vf/world.py): the solo run and the paired run of a case happen at different instants of it,
+# and so do the files each of them creates.  For those backends the time facts of MLSx replies and the date column of
+# LIST lines are therefore compared as "a time" - everything else in the line (type, size, mode, links, name, which
+# facts, in which order) still has to be the solo run's.
+_TIME_FACT = re.compile(r"(?i)\b(modify|create)=\d{14}(\.\d+)?;")
+_LS_DATE = re.compile(rb"(?m)^([-a-zA-Z]{10} \d+ \S+ \S+ \d+ )[A-Z][a-z]{2} [ \d]\d (?:[ \d]\d:\d\d| \d{4}) ")
+REAL_FS = ("async", "pathio")
+
+
+def norm(transcript, real_fs=False):
     out = []
     for ev, replies in transcript:
         for code, lines in replies:
             text = " ".join(lines)
             if code in ("227", "229"):
                 text = re.sub(r"\d+", "N", text)
+            if real_fs:
+                text = _TIME_FACT.sub(lambda m: m.group(1) + "=T;", text)
             out.append((code, text))
     return out
+
+
+def norm_data(chunks, real_fs=False):
+    if not real_fs:
+        return chunks
+    return [_LS_DATE.sub(rb"\1T ", _TIME_FACT_B.sub(lambda m: m.group(1) + b"=T;", bytes(c))) for c in chunks]
+
+
+_TIME_FACT_B = re.compile(rb"(?i)\b(modify|create)=\d{14}(\.\d+)?;")
 
 
 def restrict(snap, d):
@@ -167,10 +188,11 @@ def run_pair(case, chooser):
         chooser.active = False
         res = {}
         snap = rig.snapshot()
+        real_fs = case.get("backend") in REAL_FS
         for i, d in enumerate("ab"):
             s = rig.sessions[i]
-            res[d] = {"transcript": norm(s.transcript), "tree": restrict(snap, d),
-                      "data": [c.received for c in s.peer.conns[1:]]}
+            res[d] = {"transcript": norm(s.transcript, real_fs), "tree": restrict(snap, d),
+                      "data": norm_data([c.received for c in s.peer.conns[1:]], real_fs)}
             # how long each transfer took: arrival time of its completion reply minus arrival time of its 150 mark
             res[d]["spans"] = transfer_spans(s.ctl) if s.ctl is not None else []
         # a PathIO instance knows the Connection it works for (custom backends read it): every backend call on a
